@@ -194,6 +194,8 @@ impl Linker {
         // thread pool.
         _thread_pool: &crate::args::ThreadPool,
     ) -> error::Result<LinkerOutput<'layout_inputs>> {
+        #[cfg(feature = "verif")]
+        crate::verif_api::fault::fault_point("after-args")?;
         let identity = args.common().linker_identity();
         match args.common().version_mode {
             args::VersionMode::ExitAfterPrint => {
@@ -264,6 +266,11 @@ impl Linker {
 
         let loaded = loaded?;
 
+        #[cfg(feature = "verif")]
+        crate::verif_api::fault::fault_point("after-inputs-loaded")?;
+        #[cfg(feature = "verif")]
+        crate::verif_api::pause::pause_point("after-inputs-loaded");
+
         let output_kind = OutputKind::new(args, file_loader);
 
         let mut output = file_writer::Output::new(args, output_kind);
@@ -302,6 +309,11 @@ impl Linker {
             &resolver.resolved_groups,
         )?;
 
+        #[cfg(feature = "verif")]
+        crate::verif_api::fault::fault_point("after-symbol-resolution")?;
+        #[cfg(feature = "verif")]
+        crate::verif_api::pause::pause_point("after-symbol-resolution");
+
         if let Some(plugin) = plugin.as_mut()
             && plugin.is_initialised()
         {
@@ -339,7 +351,17 @@ impl Linker {
             &mut output,
         )?;
 
+        #[cfg(feature = "verif")]
+        crate::verif_api::fault::fault_point("after-layout")?;
+        #[cfg(feature = "verif")]
+        crate::verif_api::pause::pause_point("after-layout");
+
         P::write_output_file::<A>(&output, &layout)?;
+
+        #[cfg(feature = "verif")]
+        crate::verif_api::fault::fault_point("after-write")?;
+        #[cfg(feature = "verif")]
+        crate::verif_api::pause::pause_point("after-write");
         diff::maybe_diff()?;
 
         // We've finished linking. We consider everything from this point onwards as shutdown.
@@ -412,6 +434,21 @@ fn write_dependency_file(
     }
 
     Ok(())
+}
+
+/// Verification hook: runs the real `write_dependency_file` on a list of (filename, temporary).
+#[cfg(feature = "verif")]
+pub(crate) fn verif_write_dependency_file(
+    dep_file_path: &Path,
+    output_path: &Path,
+    files: &[(std::path::PathBuf, bool)],
+) -> std::io::Result<()> {
+    let files: Vec<InputFile> = files
+        .iter()
+        .map(|(name, temporary)| InputFile::verif_new(name.clone(), *temporary))
+        .collect();
+    let refs: Vec<&InputFile> = files.iter().collect();
+    write_dependency_file(dep_file_path, output_path, &refs)
 }
 
 /// Possibly initialise timing if a timing-related environment variable is active and it was enabled
